@@ -277,3 +277,22 @@ Example revocation_applies :
   st s <> Disposed /\ 0 < outst s /\ acbs s = [KValidate] /\ 0 < direct s /\
   snd (step s (OpAnswer ADeny)) = [ORelease; OUnsubEvent VAccessDenied].
 Proof. vm_compute. repeat split; try reflexivity; try lia; discriminate. Qed.
+
+(* C07 (the other half, where it holds): an access answer that reaches a subscription which is not disposed runs every
+   continuation that was waiting - none is left behind *)
+Theorem answer_runs_all_waiting : forall s a,
+  st s <> Disposed -> 0 < outst s ->
+  obs_ids (snd (step s (OpAnswer a))) = cont_ids (acbs s) /\ cont_ids (acbs (fst (step s (OpAnswer a)))) = [].
+Proof.
+  intros s a Hst Ho. cbn [step]. destruct (Nat.eqb_spec (outst s) 0) as [H0|_]; [lia|]. cbn [st acbs].
+  destruct (st s) eqn:E; try congruence;
+    match goal with |- context [run_conts ?x ?ks a] => destruct (run_conts_ids ks x a) as [H1 H2]; rewrite H1, H2; split; reflexivity end.
+Qed.
+
+(* ... but "every registered continuation eventually runs" is FALSE of the unchanged code (recorded finding
+   KF-PENDING-DROPPED): a subscription disposed while a request waits for its access answer drops the continuation -
+   the request is never answered. *)
+Theorem every_continuation_runs_refuted :
+  exists ops, NoDup (all_ids ops) /\ all_ids ops = [1] /\
+    let '(s, o) := run init ops in obs_ids (concat o) = [] /\ outst s = 0 /\ cont_ids (acbs s) = [1].
+Proof. exists [OpGet 1; OpUnsub 1; OpAnswer AGrant]. vm_compute. repeat split; try reflexivity. repeat constructor; intros []. Qed.
